@@ -279,6 +279,9 @@ func prjSR(data string) (*proj.SR, string) {
 
 func implLine(line string, out *bufio.Writer) {
 	t := strings.Fields(line)
+	if t[0] == "lreg" || t[0] == "lregalias" { // late registry checks: same calls as reg / regalias
+		t[0] = t[0][1:]
+	}
 	var b strings.Builder
 	switch t[0] {
 	case "pair":
@@ -338,6 +341,37 @@ func implLine(line string, out *bufio.Writer) {
 		fmt.Fprintf(&b, "N %s D %s N2 %s EQ %s %s NIL %s USE %s %s %s %s %s %s", rn, rd, rn2, equalRes(N, D), equalRes(D, N), nilRes(N, D),
 			fl(x1), fl(y1), s1, fl(x2), fl(y2), s2)
 		grid(&b, N, D, -71.3, 42.7) // off the equator: through the name and through its definition string
+	case "reghist":
+		// reghist <hex text>... | <name> <hex def>... | <alias> <target>...
+		sec := 0
+		var names, als []string
+		for _, x := range t[1:] {
+			if x == "|" {
+				sec++
+				continue
+			}
+			switch sec {
+			case 0:
+				parseRes(unhx(x)) // the history: its results are not used
+			case 1:
+				names = append(names, x)
+			default:
+				als = append(als, x)
+			}
+		}
+		st := func(r string) string { return r[:strings.Index(r+" ", " ")] }
+		emit := func(label, a, bdef string) {
+			A, ra := parseRes(a)
+			B, rb := parseRes(bdef)
+			fmt.Fprintf(&b, " R %s %s %s EQ %s %s NIL %s", label, st(ra), st(rb), equalRes(A, B), equalRes(B, A), nilRes(A, B))
+			grid(&b, A, B, 11.3, 48.1)
+		}
+		for i := 0; i+1 < len(names); i += 2 {
+			emit(names[i], names[i], unhx(names[i+1]))
+		}
+		for i := 0; i+1 < len(als); i += 2 {
+			emit(als[i]+"~"+als[i+1], als[i], als[i+1])
+		}
 	case "regalias":
 		A, ra := parseRes(t[1])
 		T, rt := parseRes(t[2])
